@@ -321,7 +321,8 @@ class C11:
     def strategy(self, tier):
         kw = dict(max_machines=5, max_obs=3, max_nodes=6) if tier == 'quick' else dict(max_machines=8, max_obs=4, max_nodes=10)
         from .props_sim import crowd, tight
-        base = mix((3, scenarios(delays=True, **kw)), (2, crowd(kw, max_duration=4)), (1, tight(kw)))
+        base = mix((3, scenarios(delays=True, **kw)), (2, crowd(kw, max_duration=4)), (1, tight(kw)),
+                   (1, scenarios(min_obs=2, b2b=True, few_machines=True, **kw)))
         return st.tuples(base, st.lists(st.floats(0.02, 0.98), min_size=1, max_size=3), st.sampled_from([0, 0, 0, 1, 3])).map(
             lambda t: {'sc': t[0], 'frac': t[1], 'tail': t[2]})
 
@@ -409,7 +410,8 @@ class C11:
             run_given(tmp, self.strategy(tier), collect, 6, shard_seed(seed, self.prop, shard, 'enum'), shrink=False)
         else:
             kw = dict(max_machines=4, max_obs=3, max_nodes=3)
-            run_given(tmp, mix((2, crowd(kw, max_duration=3)), (1, tight(kw))), collect, 2,
+            chained = scenarios(min_obs=2, b2b=True, modes=('roomy',), max_duration=4, few_machines=True, **kw)
+            run_given(tmp, mix((2, crowd(kw, max_duration=3)), (1, tight(kw)), (2, chained)), collect, 3,
                       shard_seed(seed, self.prop, shard, 'enum'), shrink=False)
         n = 0
         for sc in collected:
